@@ -1300,12 +1300,17 @@ func makeReplay(pl *pool, pd *propDef, r *Result, tier string, minimise bool) st
 	}
 	var minTape []uint32
 	minimised := false
+	reproduced := "not re-executed"
 	if minimise && len(tape) > 0 {
 		m := &minimiser{p: pl, job: &base, kind: r.Kind, sig: r.Sig, isCrash: isCrash, budget: 400, deadline: time.Now().Add(150 * time.Second)}
 		// confirm the recorded tape reproduces before shrinking
 		if m.fails([][]uint32{tape})[0] {
 			minTape = m.run(tape)
 			minimised = true
+			reproduced = "yes"
+		} else {
+			reproduced = "NO: re-executing the recorded tape did not show the violation again (see the determinism self-test)"
+			fmt.Printf("NOTE: property=%s the violation %s was seen once and did not reproduce from its recorded tape\n", pd.id, r.Sig)
 		}
 	}
 	rep := map[string]any{
@@ -1313,6 +1318,7 @@ func makeReplay(pl *pool, pd *propDef, r *Result, tier string, minimise bool) st
 		"kind": r.Kind, "sig": r.Sig, "class": r.Class, "msg": r.Msg, "detail": r.Detail,
 		"scenario": r.Scenario, "toolchain": "go1.26.8", "gomaxprocs": gomaxprocs(), "tree_hash": treeHash(),
 	}
+	rep["reproduced_from_tape"] = reproduced
 	if len(tape) > 0 {
 		rep["tape"] = tape
 		rep["tape_len"] = len(tape)
